@@ -7,6 +7,7 @@ import (
 	"context"
 	"fmt"
 	"net"
+	"sort"
 	"strings"
 
 	"github.com/IrineSistiana/mosdns/v5/pkg/query_context"
@@ -104,6 +105,16 @@ func (r *Run) variants04(q q04) map[string]q04 {
 		v := q
 		f(&v)
 		if !sameQuestion(v, q) {
+			// only names that exist on the wire: a query whose name does not pack (empty label, label > 63 bytes)
+			// cannot reach the plugin, and a response built for it could not be dumped
+			if _, ok := dns.IsDomainName(v.name); !ok && v.name != q.name {
+				return
+			}
+			if v.name != q.name {
+				if _, err := v.msg().Pack(); err != nil {
+					return
+				}
+			}
 			vs[k] = v
 		}
 	}
@@ -265,7 +276,14 @@ func runC04(r *Run) {
 		if !q.cacheable() {
 			continue
 		}
-		for kind, v := range r.variants04(q) {
+		vmap := r.variants04(q)
+		kinds := make([]string, 0, len(vmap))
+		for kind := range vmap {
+			kinds = append(kinds, kind)
+		}
+		sort.Strings(kinds)
+		for _, kind := range kinds {
+			v := vmap[kind]
 			vk := cache.VerifGetMsgKey(v.msg())
 			r.Eval("pair:"+q.opLine()+"|"+v.opLine(), true)
 			r.Count("variant:" + kind)
@@ -309,6 +327,15 @@ func runC04(r *Run) {
 	var dump bytes.Buffer
 	if _, err := ex.c.VerifWriteDump(&dump); err != nil {
 		r.Note("dump failed: " + err.Error())
+		r.Fail("the dump of a cache filled through Cache.Exec failed, so the reload step could not run", map[string]any{"error": err.Error()})
+		for _, q := range asked {
+			if resp, _, _, _, ok := ex.c.VerifPeek(cache.VerifGetMsgKey(q.msg())); ok {
+				if _, perr := resp.Pack(); perr != nil {
+					r.Note("stored response that does not pack: " + q.String() + " :: " + strings.ReplaceAll(resp.String(), "\n", " | ") + " :: " + perr.Error())
+					break
+				}
+			}
+		}
 	} else {
 		ex2 := newExec04(owner, 1<<23)
 		if _, err := ex2.c.VerifReadDump(bytes.NewReader(dump.Bytes())); err != nil {
